@@ -35,18 +35,21 @@ def checksum (b : Block) : Except Err Nat :=
   | .error e => .error e
   | .ok hb => .ok ((hb ++ b.data).sum)
 
-/-- `Block.encode` with `length_format="B"`, `checksum_format="H"`: `struct.pack(">B10s{n}sH", 10+n, hdr, data, sum)` -/
-def Block.encode (b : Block) : Except Err Bytes :=
+/-- `Block.encode` for given widths: `struct.pack(">{L}{hl}s{n}s{C}", hl+n, hdr, data, sum)` -/
+def Block.encodeW (lw cw hl : Nat) (b : Block) : Except Err Bytes :=
   match b.header.encode with
   | .error e => .error e
   | .ok hb =>
-    let n := b.data.length
-    match Py.packBE [(BlockFmt.secsiLengthWidth, ((SecsIHeader.length + n : Nat) : Int))] with
+    match Py.packBE [(lw, ((hl + b.data.length : Nat) : Int))] with
     | .error e => .error e
     | .ok lb =>
-      match Py.packBE [(BlockFmt.secsiChecksumWidth, (((hb ++ b.data).sum : Nat) : Int))] with
+      match Py.packBE [(cw, (((hb ++ b.data).sum : Nat) : Int))] with
       | .error e => .error e
-      | .ok cb => .ok (lb ++ (hb.take SecsIHeader.length ++ List.replicate (SecsIHeader.length - hb.length) 0) ++ b.data ++ cb)
+      | .ok cb => .ok (lb ++ (hb.take hl ++ List.replicate (hl - hb.length) 0) ++ b.data ++ cb)
+
+/-- `Block.encode` with `length_format="B"`, `checksum_format="H"` (generated widths) -/
+def Block.encode (b : Block) : Except Err Bytes :=
+  Block.encodeW BlockFmt.secsiLengthWidth BlockFmt.secsiChecksumWidth SecsIHeader.length b
 
 /-- `Block.decode`: `.ok none` is the Python `None` (checksum mismatch); errors are `struct.error` -/
 def Block.decode (raw : Bytes) : Except Err (Option Block) :=
